@@ -98,16 +98,32 @@ def wch3 : PChain := clip 1 3 wProd.store.getBlock
 def wInOrder : List Ev := [.hdr 1, .dat 1, .hdr 2, .dat 2, .hdr 3, .dat 3, .hdr 4, .dat 4]
 def wShuffled : List Ev := [.dat 3, .hdr 3, .dat 2, .hdr 2, .hdr 3, .dat 2, .hdr 1]
 
-/-- crash scenario of C05: header 1 and data 2 delivered, then header 2 arrives and the process dies after the
-first write (the state) of applying block 2 -/
+/-- the store holds at height `k` exactly what the proposer committed there: signed header, signature and
+transaction list (decidable form of `SameBlock` without the data clause) -/
+def holdsBlock (ch : PChain) (s : Store) (k : Nat) : Bool :=
+  match ch k, s.getBlock k with
+  | some b, some sb => decide (sb.sh = b.sh ∧ sb.savedSig = b.sh.sig ∧ sb.data.txs = b.data.txs)
+  | _, _ => false
+
+/-- the store holds the whole witness chain `wch3` -/
+def holdsChain3 (s : Store) : Bool := holdsBlock wch3 s 1 && holdsBlock wch3 s 2 && holdsBlock wch3 s 3
+
+/-- crash scenario of C05 (the witness of the defect repaired by /repo 99e45dc): header 1 and data 2 delivered,
+then header 2 arrives and the process dies after the first write of applying block 2.  Before the repair that
+write was the state (state of height 2 without block 2, for ever); now it is the block. -/
 def wBefore : FNode := run wC wch3 [.hdr 1, .dat 2]
 def wImage : Store := wBefore.store.applyPrefix 1 (deliver wch3 wBefore (.hdr 2)).2
 def wAll : List Op := [.ev (.hdr 1), .ev (.dat 1), .ev (.hdr 2), .ev (.dat 2), .ev (.hdr 3), .ev (.dat 3)]
 /-- the node restarted on the image, after everything has been delivered again -/
 def wAfter : Option FNode := (start wC wImage).map fun p => runFrom wC wch3 p.1 wAll
 
+/-- the same step, crash after the second write (block and state written, chain height not yet raised): the
+only remaining window in which the state is ahead of the stored chain height -/
+def wImageS : Store := wBefore.store.applyPrefix 2 (deliver wch3 wBefore (.hdr 2)).2
+def wAfterS : Option FNode := (start wC wImageS).map fun p => runFrom wC wch3 p.1 wAll
+
 /-- the same crash window at the initial height: header 1 (an empty block) arrives at the fresh node and the
-process dies after the state write of applying block 1 -/
+process dies after the first write of applying block 1 -/
 def wImage1 : Store := (fresh wC).store.applyPrefix 1 (deliver wch3 (fresh wC) (.hdr 1)).2
 def wAfter1 : Option FNode := (start wC wImage1).map fun p => runFrom wC wch3 p.1 wAll
 
@@ -119,12 +135,24 @@ theorem wFacts :
     (∀ k, k ≤ 3 → wC.initialHeight ≤ k → CheckBlock wC wch3 k) ∧
     CheckDistinct wch3 3 ∧
     ready wC wch3 3 wShuffled = 3 ∧
-    (wProd.store.height = 4 ∧ (wch 2).map (·.data.txs) = some [[7]] ∧ (wch 4).map (·.data.txs) = some [[7]]) ∧
-    (afterStateWrite (deliver wch3 wBefore (.hdr 2)).2 1 = true ∧ recHeight wC wImage = 2 ∧ wImage.getBlock 2 = none ∧
-     wAfter.map (fun n => (n.store.height, n.lastState.lastHeight, n.store.getBlock 2, n.alive)) = some (3, 3, none, true)) ∧
-    (recHeight wC wImage1 = 1 ∧ (wImage1.getBlock 1).map (·.sh.sig) = some .none ∧
+    (wProd.store.height = 4 ∧ (wch 2).map (·.data.txs) = some [[7]] ∧ (wch 4).map (·.data.txs) = some [[7]]) := by
+  decide +kernel
+
+set_option maxRecDepth 100000 in
+set_option synthInstance.maxSize 1024 in
+theorem wCrashFacts :
+    ((deliver wch3 wBefore (.hdr 2)).2.length = 3 ∧ wBefore.store.height = 1 ∧
+     recHeight wC wImage = 1 ∧ wImage.height = 1 ∧ holdsBlock wch3 wImage 2 = true ∧
+     (start wC wImage).map (fun p => (p.1.store.height, p.1.lastState.lastHeight)) = some (1, 1) ∧
+     wAfter.map (fun n => (n.store.height, n.lastState.lastHeight, holdsChain3 n.store, n.alive)) = some (3, 3, true, true)) ∧
+    (recHeight wC wImageS = 2 ∧ wImageS.height = 1 ∧ holdsBlock wch3 wImageS 2 = true ∧
+     (start wC wImageS).map (fun p => (p.1.store.height, p.1.lastState.lastHeight)) = some (2, 2) ∧
+     wAfterS.map (fun n => (n.store.height, n.lastState.lastHeight, holdsChain3 n.store, n.alive)) = some (3, 3, true, true)) ∧
+    (recHeight wC wImage1 = 0 ∧ holdsBlock wch3 wImage1 1 = true ∧
      (wch3 1).map (·.sh.sig.isEmpty) = some false ∧
-     wAfter1.map (fun n => (n.store.height, (n.store.getBlock 1).map (·.sh.sig), n.alive)) = some (3, some .none, true)) := by
+     (start wC wImage1).map (fun p => (p.1.store.height, p.1.lastState.lastHeight)) = some (0, 0) ∧
+     wAfter1.map (fun n => (n.store.height, n.lastState.lastHeight, holdsChain3 n.store,
+       (n.store.getBlock 1).map (·.sh.sig.isEmpty), n.alive)) = some (3, 3, true, some false, true)) := by
   decide +kernel
 
 theorem wf_check4 : ∀ k, k ≤ 4 → wC.initialHeight ≤ k → CheckBlock wC wch k := wFacts.1
@@ -134,14 +162,21 @@ theorem wf_check3 : ∀ k, k ≤ 3 → wC.initialHeight ≤ k → CheckBlock wC 
 theorem wf_distinct3 : CheckDistinct wch3 3 := wFacts.2.2.2.2.1
 theorem wf_readyShuffled : ready wC wch3 3 wShuffled = 3 := wFacts.2.2.2.2.2.1
 theorem wf_chain : wProd.store.height = 4 ∧ (wch 2).map (·.data.txs) = some [[7]] ∧
-    (wch 4).map (·.data.txs) = some [[7]] := wFacts.2.2.2.2.2.2.1
-theorem wf_crash : afterStateWrite (deliver wch3 wBefore (.hdr 2)).2 1 = true ∧ recHeight wC wImage = 2 ∧
-    wImage.getBlock 2 = none ∧
-    wAfter.map (fun n => (n.store.height, n.lastState.lastHeight, n.store.getBlock 2, n.alive)) = some (3, 3, none, true) :=
-  wFacts.2.2.2.2.2.2.2.1
-theorem wf_crash1 : recHeight wC wImage1 = 1 ∧ (wImage1.getBlock 1).map (·.sh.sig) = some .none ∧
+    (wch 4).map (·.data.txs) = some [[7]] := wFacts.2.2.2.2.2.2
+theorem wf_crash : (deliver wch3 wBefore (.hdr 2)).2.length = 3 ∧ wBefore.store.height = 1 ∧
+    recHeight wC wImage = 1 ∧ wImage.height = 1 ∧ holdsBlock wch3 wImage 2 = true ∧
+    (start wC wImage).map (fun p => (p.1.store.height, p.1.lastState.lastHeight)) = some (1, 1) ∧
+    wAfter.map (fun n => (n.store.height, n.lastState.lastHeight, holdsChain3 n.store, n.alive)) = some (3, 3, true, true) :=
+  wCrashFacts.1
+theorem wf_crashS : recHeight wC wImageS = 2 ∧ wImageS.height = 1 ∧ holdsBlock wch3 wImageS 2 = true ∧
+    (start wC wImageS).map (fun p => (p.1.store.height, p.1.lastState.lastHeight)) = some (2, 2) ∧
+    wAfterS.map (fun n => (n.store.height, n.lastState.lastHeight, holdsChain3 n.store, n.alive)) = some (3, 3, true, true) :=
+  wCrashFacts.2.1
+theorem wf_crash1 : recHeight wC wImage1 = 0 ∧ holdsBlock wch3 wImage1 1 = true ∧
     (wch3 1).map (·.sh.sig.isEmpty) = some false ∧
-    wAfter1.map (fun n => (n.store.height, (n.store.getBlock 1).map (·.sh.sig), n.alive)) = some (3, some .none, true) :=
-  wFacts.2.2.2.2.2.2.2.2
+    (start wC wImage1).map (fun p => (p.1.store.height, p.1.lastState.lastHeight)) = some (0, 0) ∧
+    wAfter1.map (fun n => (n.store.height, n.lastState.lastHeight, holdsChain3 n.store,
+      (n.store.getBlock 1).map (·.sh.sig.isEmpty), n.alive)) = some (3, 3, true, some false, true) :=
+  wCrashFacts.2.2
 
 end Sync
